@@ -35,6 +35,10 @@ AIRPORTS = {
     'MID': (38.0, -79.0, 14000),
 }
 IN_WEATHER = ['BOS', 'JFK', 'LGA', 'PHL', 'DCA', 'PIT', 'CLT']   # inside the test weather file's domain
+# airports outside the generated pools: MAD is written to the main table like the others; AEI exists only
+# in the packaged supplemental table (airports/airports-patch.csv)
+EURO = {'MAD': (40.4936, -3.5668, 1998)}
+PATCH_ONLY = {'AEI': (36.128612, -5.441389, 99)}
 
 
 def warm():
@@ -157,7 +161,7 @@ def write_airports(sandbox):
             'gps_code', 'local_code', 'home_link', 'wikipedia_link', 'keywords']
     with open(os.path.join(d, 'airports.csv'), 'w') as f:
         f.write(','.join(f'"{c}"' for c in cols) + '\n')
-        for i, (code, (lat, lon, el)) in enumerate(sorted(AIRPORTS.items())):
+        for i, (code, (lat, lon, el)) in enumerate(sorted({**AIRPORTS, **EURO}.items())):
             row = [str(i), 'K' + code, 'large_airport', code + ' airport', str(lat), str(lon), str(el), 'NA',
                    'US', 'US-XX', code, 'yes', 'K' + code, code, 'K' + code, code, '', '', '']
             f.write(','.join(f'"{c}"' for c in row) + '\n')
@@ -175,6 +179,10 @@ class BuilderSim:
         self.ops_done = []
         self.states = set()
         write_airports(sandbox)
+        # the sandbox's data directory comes first on the search path (that is where a directory can
+        # sit in the place of the supplemental airport table)
+        rest = [x for x in os.environ.get('AEIC_PATH', '').split(os.pathsep) if x and 'aeicverif-' not in x]
+        os.environ['AEIC_PATH'] = os.pathsep.join([os.path.join(sandbox, 'data')] + rest)
         Config.load(data_path_overrides=[os.path.join(sandbox, 'data')],
                     weather={'use_weather': True, 'weather_data_dir': _REPO_TESTS_WEATHER})
         install_seams()
@@ -283,15 +291,33 @@ class BuilderSim:
         plan = op.get('fault')
         kind = op['kind']
         prev = self.last_outcome.get(bid, 'none')
-        if op.get('fresh_first'):
-            fresh = self.make_builder(opts)
-            out2, p2 = self.fly_once(fresh, m, plan)
-            del fresh
-            out, p = self.fly_once(builder, m, plan)
-        else:
-            out, p = self.fly_once(builder, m, plan)
-            fresh = self.make_builder(opts)
-            out2, p2 = self.fly_once(fresh, m, plan)
+        blockdir = os.path.join(self.sandbox, 'data', 'airports', 'airports-patch.csv')
+        if op.get('block_patch'):
+            os.makedirs(blockdir, exist_ok=True)
+            self.bump('patch_table_unreadable')
+        try:
+            if op.get('fresh_first'):
+                fresh = self.make_builder(opts)
+                out2, p2 = self.fly_once(fresh, m, plan)
+                del fresh
+                out, p = self.fly_once(builder, m, plan)
+            else:
+                out, p = self.fly_once(builder, m, plan)
+                fresh = self.make_builder(opts)
+                out2, p2 = self.fly_once(fresh, m, plan)
+        finally:
+            if op.get('block_patch'):
+                os.rmdir(blockdir)
+        known = {**AIRPORTS, **EURO, **PATCH_ONLY}
+        if out[0] == 'exc' and not op.get('block_patch') and m['o'] in known and m['d'] in known \
+                and 'nknown airport' in str(out[2]):
+            # both airports are in the tables the process can read right now: "unknown airport" is
+            # not this mission's reason - an earlier failure left the builder's world unusable
+            self.fail('fail.masked', f'{m["o"]}-{m["d"]}: {out[1]}: {out[2]}', surfaced=out[1],
+                      expected='a flight (both airports are known)', kind=kind, previous_outcome=prev,
+                      fault_site=None, iterate_mass=opts['iterate_mass'], use_weather=opts['use_weather'])
+        if kind == 'patch_airport':
+            self.bump('patch_only_airport_' + out[0])
         feat = dict(kind=kind, previous_outcome=prev, fault_site=(plan or {}).get('site'),
                     iterate_mass=opts['iterate_mass'], use_weather=opts['use_weather'])
         self.states.add(f'{kind}|prev:{prev}|{out[0]}|w{int(opts["use_weather"])}|i{int(opts["iterate_mass"])}')
@@ -452,9 +478,19 @@ def gen_op(rng, cfg, bid, opts):
              'airport': rng.randint(0, 1), 'weather_init': 0,
              'ground_speed': rng.choice([0, rng.randint(1, int(2 / opts['frac']))])}[site]
         fault = {'site': site, 'k': k}
+    block = False
+    if not use_w and rng.random() < 0.12:
+        # an airport that only the supplemental table knows; sometimes that table cannot be read
+        # while this mission is flown (a directory sits in its place on the search path)
+        kind, fault = 'patch_airport', None
+        m['o'], m['d'] = ('MAD', 'AEI') if rng.random() < 0.5 else ('AEI', 'MAD')
+        m.pop('mass', None)
+        block = rng.random() < 0.4
     op = {'op': 'fly', 'builder': bid, 'opts': opts, 'mission': m, 'kind': kind}
     if fault:
         op['fault'] = fault
+    if block:
+        op['block_patch'] = True
     if rng.random() < 0.5:
         # the reference flight on the brand-new builder happens first: the mission objects the used
         # builder sees are then short-lived temporaries created one after the other (the streaming
